@@ -96,6 +96,9 @@ def run(ctx):
         c.ob("R4", ok, isd, "doneness-skips-history", "a history child never makes a parallel state 'not done'" if ok else
              "the region loop of _is_state_done treats a history pseudo-state as a region: a parallel state with a history child can never complete", l)
     shared.eligible_bucket_rules(ctx, "R8", "ondone")
+    # ---- R9 a declared output that is falsy is still an output -----------------------------------------------
+    shared.none_is_the_only_absence(ctx, "R9", [("BaseInterpreter", "_resolve_output_value", "output"), ("BaseInterpreter", "_resolve_output", "output"),
+                                                 ("BaseInterpreter", "_check_and_fire_on_done", "machine_output"), ("SyncInterpreter", "_check_and_fire_on_done", "machine_output")])
     # ---- R7 done-ness: every region must be done; a history child is skipped, not a reason to stop ----------
     def _falsy(v):
         return isinstance(v, ast.Constant) and not v.value
